@@ -6,7 +6,7 @@
            pipeline  = ((signal, name), (receivers, (processors, exporters)))   ids are nat
            connector = (id, Some (factory is an xconnector.Factory, requested (exporter signal, receiver signal) pairs))
                        | (id, None)   no factory registered for the connector's type
-   wobs  = (validate_ok, (class, (detail, (created, (started, (deliveries, (deliveries_ro, (routers, (refusing, (deliveries_f, (errors, (nil_host_rejected, probes)))))))))))
+   wobs  = (validate_ok, (class, (detail, (created, (started, (deliveries, (deliveries_ro, (routers, (refusing, (deliveries_f, (errors, (nil_host_rejected, (probes, deliveries_empty))))))))))))
            class      0 built | 1 "connector ... not used in any supported ..." / "connector factory not available"
                       | 2 "cycle detected" | 3 panic | 5 "failed to create ... telemetry type is not supported"
            detail     class 1: [(side 0 exporter / 1 receiver, (signal, (0, connector id)))]
@@ -21,6 +21,8 @@
            deliveries_f / errors   per receiver: what still arrived in that pass / did the receiver get an error back
            probes     (connector node, (requested pipeline ids, (router.Consumer(ids...) accepted, what arrived when a
                       probe datum was sent into the returned consumer)))
+           deliveries_empty  what arrived after injecting an EMPTY payload (no resource entries) at every receiver;
+                      deliveries_ro uses a childless payload (a resource without scopes)
    wnode = (kind, (a, (b, id)))  0 Recv a=signal | 1 Proc (a,b)=pipeline | 2 Exp a=signal
                                  3 Conn a=exporter signal b=receiver signal | 4 Cap | 5 Fan *)
 From Verif Require Import Common.Base C09.Model.
@@ -31,7 +33,7 @@ Definition wcfg := (list wpipe * (list (nat * option (bool * list (nat * nat))) 
 Definition wdeliv := (wnode * list (wnode * list wnode))%type.
 Definition wprobe := (wnode * (list (nat * nat) * (bool * list (wnode * list wnode))))%type.
 Definition wrouter := (wnode * list (nat * nat))%type.
-Definition wobs := (bool * (nat * (list wnode * (list wnode * (list wnode * (list wdeliv * (list wdeliv * (list wrouter * (list wnode * (list wdeliv * (list (wnode * bool) * (bool * list wprobe))))))))))))%type.
+Definition wobs := (bool * (nat * (list wnode * (list wnode * (list wnode * (list wdeliv * (list wdeliv * (list wrouter * (list wnode * (list wdeliv * (list (wnode * bool) * (bool * (list wprobe * list wdeliv)))))))))))))%type.
 
 Definition node_of_w (w : wnode) : node :=
   let '(k, (a, (b, i))) := w in
@@ -80,7 +82,7 @@ Definition model_routers (g : graph) : list (node * list pid) :=
   map (fun n => (n, router_pids g n)) (filter is_connector (g_nodes g)).
 
 Definition check_case (cs : wcfg * wobs) : bool :=
-  let '(wc, (vok, (cls, (detail, (wcreated, (wstarted, (wdel, (wdelro, (wrt, (wF, (wdelf, (werr, (nilrej, wprobes))))))))))))) := cs in
+  let '(wc, (vok, (cls, (detail, (wcreated, (wstarted, (wdel, (wdelro, (wrt, (wF, (wdelf, (werr, (nilrej, (wprobes, wdele)))))))))))))) := cs in
   let c := cfg_of_w wc in
   let r := build c in
   let crt := map node_of_w wcreated in
@@ -88,6 +90,7 @@ Definition check_case (cs : wcfg * wobs) : bool :=
   let conv := map (fun d : wdeliv => (node_of_w (fst d), map (fun x => (node_of_w (fst x), map node_of_w (snd x))) (snd d))) in
   let del := conv wdel in
   let delro := conv wdelro in
+  let dele := conv wdele in
   let delf := conv wdelf in
   let F := map node_of_w wF in
   Bool.eqb (validate c) vok && Nat.eqb (class_of r) cls &&
@@ -104,6 +107,7 @@ Definition check_case (cs : wcfg * wobs) : bool :=
                  end) wprobes &&
       perm_eqb (fun a b => node_eqb (fst a) (fst b) && perm_eqb deliv_eqb (snd a) (snd b)) (model_deliveries g) del &&
       perm_eqb (fun a b => node_eqb (fst a) (fst b) && perm_eqb deliv_eqb (snd a) (snd b)) (model_deliveries g) delro &&
+      perm_eqb (fun a b => node_eqb (fst a) (fst b) && perm_eqb deliv_eqb (snd a) (snd b)) (model_deliveries g) dele &&
       perm_eqb (fun a b => node_eqb (fst a) (fst b) && perm_eqb deliv_eqb (snd a) (snd b))
                (map (fun r => (r, deliver_f g F r)) (filter is_recv (g_nodes g))) delf &&
       perm_eqb (fun a b => node_eqb (fst a) (fst b) && Bool.eqb (snd a) (snd b))
@@ -117,7 +121,7 @@ Definition check_case (cs : wcfg * wobs) : bool :=
            list_eqb node_eqb (create_until c crt) crt && list_eqb node_eqb (dedup node_eqb crt) crt &&
            forallb (fun n => existsb (node_eqb n) (filter is_component (nodes_of c))) crt
        | _ => is_nil crt
-       end) && is_nil std && is_nil del && is_nil delro && is_nil wrt && is_nil wdelf && is_nil werr && negb nilrej && is_nil wprobes &&
+       end) && is_nil std && is_nil del && is_nil delro && is_nil wrt && is_nil wdelf && is_nil werr && negb nilrej && is_nil wprobes && is_nil wdele &&
       match e with
       | EUnsupported =>
           match detail with
